@@ -68,6 +68,9 @@ fn c15_strategy(ctx: &Ctx) -> BoxedStrategy<TimedCase> {
       creation: false,
       sched_new: true,
       timed: true,
+      // publish().ref_count() / replay().ref_count() over timers: the connection (and with it
+      // the timer's thread) ends with the last subscriber
+      connectable: true,
       window_group: false,
       exclude: vec!["zip".into(), "combine_latest".into(), "sequence_equal".into(), "concat".into(), "flat_map".into(), "skip_until".into(), "sample".into()],
       ..GenCfg::default()
